@@ -682,10 +682,20 @@ import threading  # noqa: E402
 _slots = threading.BoundedSemaphore(max(1, int(os.environ.get('BSV_NPROC', str(os.cpu_count() or 8))) // 2))
 
 
+SOLVER_TIME = {}     # per block (path base): seconds during which a solver portfolio of that block was actually running
+_st_lock = threading.Lock()
+
+
 def portfolio(gb, solvers, extra, timeout):
     """run the solvers in parallel; the first one that gives a definitive answer wins, the others are killed"""
     with _slots:
-        return _portfolio(gb, solvers, extra, timeout)
+        t0 = time.time()
+        try:
+            return _portfolio(gb, solvers, extra, timeout)
+        finally:
+            with _st_lock:
+                k = re.sub(r'\.[a-z]{1,2}\.gb$', '', gb)
+                SOLVER_TIME[k] = SOLVER_TIME.get(k, 0.0) + time.time() - t0
 
 
 def _portfolio(gb, solvers, extra, timeout):
@@ -962,7 +972,9 @@ def _cache_key(r):
 
 def run_block(r, blocks, keep=False, verbose=False):
     if r.cfile is None or not CACHE:
-        return _run_block(r, blocks, keep, verbose)
+        r = _run_block(r, blocks, keep, verbose)
+        r.solver_s = SOLVER_TIME.get(getattr(r, 'base', None), 0.0)
+        return r
     key = os.path.join(CACHE, _cache_key(r) + '.json')
     if os.path.exists(key) and os.environ.get('BSV_CACHE_MODE', 'rw') != 'w':
         d = json.load(open(key))
@@ -971,6 +983,7 @@ def run_block(r, blocks, keep=False, verbose=False):
         r.bounded_only = False
         return r
     r = _run_block(r, blocks, keep, verbose)
+    r.solver_s = SOLVER_TIME.get(r.base, 0.0)
     if r.status in ('proved', 'bounded'):
         os.makedirs(CACHE, exist_ok=True)
         with open(key + '.tmp%d' % os.getpid(), 'w') as f:
@@ -1204,7 +1217,7 @@ def check_property(pid, tier, blocks, verbose=True):
     os.makedirs(os.path.join(EVDIR, 'replay'), exist_ok=True)
     for r in res:
         functions.update(r.srcs)
-        solver_time += r.time
+        solver_time += getattr(r, 'solver_s', 0.0)
         for o in r.obligations:
             mine = pid in o['tags'] or 'support' in o['tags'] or (pid == 'C09' and 'C09' in o['tags'])
             if not mine:
@@ -1223,6 +1236,7 @@ def check_property(pid, tier, blocks, verbose=True):
                 k = [x for x in known if x[0] == pid and x[1].search(text)]
                 if k:
                     knowns.append((r, o, k[0][2]))
+                    n_obl -= 1      # counted separately (obligations_failing_as_known_findings), never as discharged
                 else:
                     violations.append((r, o))
     rc = 0
@@ -1258,15 +1272,17 @@ def check_property(pid, tier, blocks, verbose=True):
             'samples': samples,
             'functions_under_contract': functions,
             'blocks': [{'block': r.block.name, 'kind': r.block.kind, 'mode': r.block.mode, 'status': r.status,
-                        'obligations': len(r.obligations), 'solver': r.solver, 'wall_s': round(r.time, 2),
+                        'obligations': len(r.obligations), 'solver': r.solver, 'wall_s': round(r.time, 2), 'solver_s': round(getattr(r, 'solver_s', 0.0), 2),
                         'canary': r.canary, 'replaced_callees': r.block.replace, 'c_hash': r.chash,
                         'bounded': r.block.bounded, **({'from_cache': True} if getattr(r, 'cached', False) else {})} for r in res],
             'discharged_by_backend': by_solver,
             'solver_wall_s': round(solver_time, 1),
+            'solver_wall_note': 'sum over blocks of the time during which a solver portfolio (cvc5 and z3 side by side) of that block was running; blocks run in parallel, so this exceeds the wall time of the check',
             'undecided_blocks': [r.block.name for r in undecided],
             'bounded_standins': [{'block': r.block.name, 'bound': r.block.bounded, 'obligations_checked_in_the_bound': len(r.obligations),
                                   'note': 'NOT counted in obligations/discharged: a bounded check, not a proof'} for r in bounded_blocks],
             'known_findings': [{'obligation': o['id'], 'what': what} for r, o, what in knowns],
+            'obligations_failing_as_known_findings': len(knowns),
             'repo_include_hash': repo_hash(),
             'explanation': 'every listed obligation is generated by goto-instrument/cbmc from C that bs2c extracts on this run from the instantiated bodies in %s; proof-level means all of them were discharged, for all inputs and all loop iterations, under the stated assumptions' % REPO,
         },
